@@ -76,7 +76,7 @@ def tt_sum(E, s):
         return
     arg = idx[0] if s.get('as_int') else list(idx)
     r = x.sum(arg)
-    dims = list(idx) + ([d + i for i in idx] if 'M' in s else [])
+    dims = [i % d for i in idx] + ([d + i % d for i in idx] if 'M' in s else [])
     ref = tn.sum(xd, dims) if dims else xd
     if isinstance(r, E.tt.TT):
         E.eq('value', dense(E, r.cores), ref)
